@@ -282,8 +282,8 @@ def roundtrip(col, item):
     try:
         base = {"plain": "file", "dots": "a.b.c.nc", "suffixchars": {"zip": "temp.p", "gz": "log.gz", "bz2": "b2", "xz": "x.x"}[fmt],
                 "uppercase": "DATA", "mixedcase": "map.v2", "bare-format-name": "", "dot-format-name": "",
-                # the longest name the file system takes (255 bytes with the suffix), partly in two-byte characters
-                "longest": "m\u00e9t\u00e9o-" + "x" * (255 - 8 - 1 - len(fmt))}[naming]
+                # the longest name the file system takes (NAME_MAX, usually 255, bytes with the suffix), partly in two-byte characters
+                "longest": "m\u00e9t\u00e9o-" + "x" * (os.pathconf(work, "PC_NAME_MAX") - 8 - 1 - len(fmt))}[naming]
         # an upper- or mixed-case suffix is either a compression suffix or it is not: the name is passed through untouched
         # or a genuine archive is stored -- in both readings the bytes come back and exactly one file is left
         suffix = fmt.upper() if naming == "uppercase" else fmt.capitalize() if naming == "mixedcase" else fmt
